@@ -365,3 +365,74 @@ Section Signal.
     rewrite Hs. destruct (rcd r (ns - 0)) as [v r1]. rewrite Hz, Z.add_0_r. apply IH. exact Hns.
   Qed.
 End Signal.
+
+(* ------------------------------------------------------------------ *)
+(* the seeds in the rows appended to a trial file                       *)
+Lemma K_pipeline :
+  ctdf_nreseed = 0 /\ ctdf_nservice = 0 /\ ctdf_ntrials_calls = 1 /\ ext_nreseed = 1 /\ ext_nservice = 0
+  /\ ext_reseed_before_create = true /\ trials_nservice = 0 /\ trials_nrss_calls = 0
+  /\ pseudo_nservice = 0 /\ trial_nservice = 1
+  /\ (forall r, ctdf_trials_rss r = r) /\ (forall m, ctdf_trials_mrss m = m).
+Proof. repeat split; reflexivity. Qed.
+Lemma K_mdsig : mdsig_nservice = 0 /\ (forall r, mdsig_gen_rss r = r) /\ mdsig_nchoice = 2 /\ mdsig_nrandom_any = 3.
+Proof. repeat split; reflexivity. Qed.
+
+Section Rows.
+  Variables rng val : Type.
+  Variable seed_rng : Z -> rng.
+  Variable draw : rng -> req -> val * rng.
+  Variable val_int : val -> Z.
+
+  Lemma row_seeds_spec parent ncpu :
+    row_seeds rng val seed_rng draw val_int parent ncpu
+      = Ok (map (@rs_seed rng) (rss_list rng val seed_rng draw val_int parent ncpu)).
+  Proof.
+    unfold row_seeds, service_handed_down.
+    destruct K_pipeline as [H1 [H2 [H3 [H4 [H5 [H6 [H7 [H8 [H9 [H10 [H11 _]]]]]]]]]]].
+    rewrite H1, H2, H3, H4, H5, H6, H7, H8, H9, H10, H11, K_seed_create_rss, K_trials_rss.
+    change ((0 =? 0) && (0 =? 0) && (1 =? 1) && (1 =? 1) && (0 =? 0) && true && (0 =? 0) && (0 =? 0)
+            && (0 =? 0) && (1 =? 1) && (0 =? 0) && (0 =? 0) && (0 =? 0)) with true.
+    cbv iota. apply f_equal. apply map_ext. intros r. apply K_trial_rec_seed.
+  Qed.
+
+  (* one process: every appended row carries the seed chosen by the search *)
+  Theorem extend_rows_single rss_seed seeds :
+    exists s, extend_rows rng val seed_rng draw val_int rss_seed seeds 1 = Ok [s]
+              /\ ~ In s seeds /\ extend_seed rss_seed seeds = Ok s.
+  Proof.
+    destruct (extend_seed_fresh rss_seed seeds) as [s [Hs [Hf _]]].
+    exists s. unfold extend_rows. rewrite Hs. cbn [bind]. rewrite row_seeds_spec.
+    rewrite rss_reseed_fresh. rewrite rss_list_spec by lia. cbn [Z.eqb Pos.eqb map].
+    destruct (rss_new_spec rng seed_rng s) as [Hn _]. rewrite Hn. cbn [rs_seed].
+    split; [reflexivity|]. split; [exact Hf | reflexivity].
+  Qed.
+
+  (* several processes: the master's rows carry the chosen (fresh) seed, the
+     rows of worker k the k-th randint read of the re-seeded parent *)
+  Theorem extend_rows_workers rss_seed seeds ncpu :
+    1 < ncpu ->
+    exists s, extend_seed rss_seed seeds = Ok s /\ ~ In s seeds
+      /\ extend_rows rng val seed_rng draw val_int rss_seed seeds ncpu
+         = Ok (s :: fst (randints rng val draw val_int (Z.to_nat (ncpu - 1))
+                                  {| rs_seed := s; rs_st := seed_rng s |})).
+  Proof.
+    intros Hn.
+    destruct (extend_seed_fresh rss_seed seeds) as [s [Hs [Hf _]]].
+    exists s. split; [exact Hs|]. split; [exact Hf|].
+    unfold extend_rows. rewrite Hs. cbn [bind]. rewrite row_seeds_spec.
+    rewrite rss_reseed_fresh. rewrite rss_list_spec by lia.
+    destruct (ncpu =? 1) eqn:E; [apply Z.eqb_eq in E; lia|].
+    destruct (rss_new_spec rng seed_rng s) as [Hnew _]. rewrite Hnew.
+    cbn [map]. f_equal. f_equal.
+    - (* the master keeps its seed through the draws *)
+      assert (G : forall k r, rs_seed (snd (randints rng val draw val_int k r)) = rs_seed r).
+      { induction k as [|k0 IH]; intros r; [reflexivity|]. cbn [randints].
+        destruct (rss_draw rng val draw r (RRandint 0 4294967296)) as [v r1] eqn:D.
+        specialize (IH r1). destruct (randints rng val draw val_int k0 r1). cbn [snd] in *.
+        rewrite IH. pose proof (rss_draw_seed rng val draw r (RRandint 0 4294967296)) as Hd.
+        rewrite D in Hd. exact Hd. }
+      rewrite G. reflexivity.
+    - rewrite map_map. rewrite <- map_id. apply map_ext. intros w.
+      destruct (rss_new_spec rng seed_rng w) as [Hw _]. rewrite Hw. reflexivity.
+  Qed.
+End Rows.
